@@ -1,4 +1,4 @@
-\* exhaustive, repaired flags: 2 databases x 1 collection name x 2 incarnations x 1 partition name x 1 incarnation, all states
+\* exhaustive, repaired flags: 2 databases x 1 collection name x 2 incarnations x 1 partition name x 1 incarnation, all states; source time 10 min behind / 10 min ahead of the local clock
 SPECIFICATION Spec
 CHECK_DEADLOCK FALSE
 INVARIANTS TypeOK ContractMilvus ContractKafka
@@ -13,6 +13,8 @@ CONSTANTS
   PStates = {"creating", "created", "dropping", "dropped", "tombstone"}
   Concrete <- NamesPlain
   Now = 100
+  Skews = {"behind", "ahead"}
+  ClampLocal = FALSE
   FixStaleDb = TRUE
   LiveDbGuard = TRUE
   SafeKeys = TRUE
